@@ -56,6 +56,16 @@ where
     S: Strategy<Value = T>,
     F: Fn(&T, &mut Stats) -> Result<(), String> + Sync,
 {
+    explore_with_stack(rep, ctx, stage, cases, strat, oracle, 64 << 20)
+}
+
+/// `explore` with an explicit stack size for the threads that run the oracle.
+pub fn explore_with_stack<T, S, F>(rep: &mut Report, ctx: &Ctx, stage: &str, cases: u32, strat: impl Fn() -> S + Sync, oracle: F, stack: usize)
+where
+    T: std::fmt::Debug + Clone + Serialize,
+    S: Strategy<Value = T>,
+    F: Fn(&T, &mut Stats) -> Result<(), String> + Sync,
+{
     if !rep.failures.is_empty() || cases == 0 {
         return;
     }
@@ -70,7 +80,7 @@ where
             let n = cases / threads as u32 + if (shard as u32) < cases % threads as u32 { 1 } else { 0 };
             let seed = util::mix(ctx.seed, &format!("{}/{}", ctx.prop, stage), shard as u64);
             std::thread::Builder::new()
-                .stack_size(64 << 20)
+                .stack_size(stack)
                 .spawn_scoped(sc, move || {
                     let stats = RefCell::new(Stats::default());
                     let failed = RefCell::new(false);
